@@ -171,6 +171,9 @@ def h_xml_writer_sections(I, job):
 def h_pbf_object(I, job):
     """plain node / way / relation through PBFOutputFormat::node / way / relation and SerializeBlob, then through the reader kernels; dumps must agree"""
     kind = job['kind']; low = job.get('low', 0)
+    if low == 'sym':
+        lm = I.named('locmask', 3); low = I.concretize(lm, 'which references have a location')
+        if low == 0: low = 8          # option on, no reference located
     fm = I.new_obj(8 * 6, 'fields', 'heap')
     base = {0: [5, 3, 9, 11, 123456789, -87654321], 1: [9, 2, 0, 0, 0, 77], 2: [9, 2, 0, 0, 0, 0]}[kind]
     symf = {0: [(0, 'id'), (1, 'version'), (2, 'changeset'), (3, 'uid')], 1: [(0, 'id'), (2, 'ref0'), (3, 'ref1'), (4, 'ref2')], 2: [(0, 'id'), (2, 'mref0'), (3, 'mref1'), (4, 'mref2'), (5, 'mref3')]}[kind]
@@ -233,9 +236,9 @@ def harnesses(tier):
                 desc='writer half of the XML visibility round trip: XMLOutputBlock on a node / way / relation with symbolic version (1..3) and visibility: in change files (.osc) the object is inside exactly one of <create> / <modify> / <delete>, inside <delete> iff it is invisible (the reader half, C02 xml_objects, makes exactly those objects invisible), <create> iff visible with version 1; in history files the visible attribute carries the flag',
                 bounds='one object per block, versions 1..3; expat is not encoded: the two halves are checked against the same section rule'),
         Harness('pbf_object_roundtrip', 'codec', h_pbf_object, wall=900,
-                jobs=[dict(kind=0, cls=['small']), dict(kind=0, cls=['extreme'], u32=(1 << 32) - 1), dict(kind=1, cls=['small', 'small', 'small', 'small']), dict(kind=1, cls=['medium', 'small', 'negative', 'medium']), dict(kind=1, cls=['negative', 'medium', 'medium', 'negative'], low=1),
-                      dict(kind=2, cls=['small']), dict(kind=2, cls=['medium', 'negative', 'medium', 'small', 'medium'])] + ([] if q else [dict(kind=1, cls=['extreme', 'negative', 'extreme', 'small']), dict(kind=2, cls=['negative', 'medium', 'small', 'negative', 'extreme']), dict(kind=1, cls=['small'], low=1)]),
-                desc='a plain node / a way with three node references (optionally with locations on ways) / a relation with four members (node, way, relation, node; roles sharing and not sharing string-table entries), each with user and one tag, through the real PBFOutputFormat::node / way / relation (string table, delta coding of references and member ids, metadata), SerializeBlob without compression, then length prefix, decode_blob_header, decode_blob and PBFPrimitiveBlockDecoder: the traversal dump of what is read equals that of the original; ids, references, member ids, version, changeset, uid symbolic inside magnitude classes that fix the varint lengths',
+                jobs=[dict(kind=0, cls=['small']), dict(kind=0, cls=['extreme'], u32=(1 << 32) - 1), dict(kind=1, cls=['small', 'small', 'small', 'small']), dict(kind=1, cls=['medium', 'small', 'negative', 'medium']), dict(kind=1, cls=['negative', 'medium', 'medium', 'negative'], low=7), dict(kind=1, cls=['small'], low='sym'),
+                      dict(kind=2, cls=['small']), dict(kind=2, cls=['medium', 'negative', 'medium', 'small', 'medium'])] + ([] if q else [dict(kind=1, cls=['extreme', 'negative', 'extreme', 'small']), dict(kind=2, cls=['negative', 'medium', 'small', 'negative', 'extreme']), dict(kind=1, cls=['medium'], low='sym')]),
+                desc='a plain node / a way with three node references (optionally with locations on ways, for every subset of references that carry a location) / a relation with four members (node, way, relation, node; roles sharing and not sharing string-table entries), each with user and one tag, through the real PBFOutputFormat::node / way / relation (string table, delta coding of references and member ids, metadata), SerializeBlob without compression, then length prefix, decode_blob_header, decode_blob and PBFPrimitiveBlockDecoder: the traversal dump of what is read equals that of the original; ids, references, member ids, version, changeset, uid symbolic inside magnitude classes that fix the varint lengths',
                 bounds='one object per block; symbolic 64-bit ids / references in the classes small (|v| <= 60), medium (2^27..2^34), negative, extreme (2^62..2^63-1); coordinates and timestamps concrete; no compression'),
         Harness('xml_discussion_reader_half', 'xml', C02.h_xml_discussion, jobs=[dict(n=k) for k in ((5, 7) if q else (3, 4, 5, 6, 7, 8, 9))], setup=C03.setup_xml,
                 tests=[dict(_job=0, ev0=1, ev1=2, ev2=3, ev3=4, ev4=7, ch0=65, ch1=66, ch2=67)],
